@@ -1,12 +1,18 @@
 #!/bin/sh
-# usage: seedtest.sh <patch> <prop> [tier] -- applies a seeded patch to /repo, runs one check, reverts.
-P=$1; ID=$2; TIER=${3:-quick}
-git -C /repo apply "$P" || { echo "patch does not apply"; exit 3; }
-# the evidence file describes runs on the unchanged tree: keep it
-cp /verif/evidence/$ID.json /tmp/seedtest.evidence.$$ 2>/dev/null
-cd /verif && timeout 1100 ./check $ID $TIER > /tmp/seedtest.out 2>&1; RC=$?
-git -C /repo checkout -- .
-[ -f /tmp/seedtest.evidence.$$ ] && mv /tmp/seedtest.evidence.$$ /verif/evidence/$ID.json
-grep -E "^VIOLATION|^KNOWN|^BROKEN|^INCONCLUSIVE|^UNCONFIRMED|^check " /tmp/seedtest.out | cut -c1-220 | head -12
-grep -E "^  harness=" /tmp/seedtest.out | cut -c1-200 | sort | uniq -c | head -6
+# usage: seedtest.sh <patch> <prop> [tier]
+# Runs one check against a scratch worktree of /repo with a seeded change
+# applied (VERIF_REPO), writing evidence/replays to a scratch directory
+# (VERIF_OUT), so neither /repo nor /verif/evidence is touched. The worktree
+# and its output are removed afterwards.
+P=$(readlink -f "$1"); ID=$2; TIER=${3:-quick}
+WT=$(mktemp -d /tmp/seedwt.XXXXXX); OUT=$(mktemp -d /tmp/seedout.XXXXXX)
+rmdir "$WT"
+git -C /repo worktree add -q --detach "$WT" HEAD || exit 3
+# carry over uncommitted changes of /repo (normally none)
+git -C /repo diff HEAD | git -C "$WT" apply --allow-empty 2>/dev/null
+git -C "$WT" apply "$P" || { echo "patch does not apply"; git -C /repo worktree remove --force "$WT"; exit 3; }
+cd /verif && VERIF_REPO="$WT" VERIF_OUT="$OUT" timeout 3000 ./check $ID $TIER > "$OUT/out.txt" 2>&1; RC=$?
+grep -E "^VIOLATION|^KNOWN|^BROKEN|^INCONCLUSIVE|^UNCONFIRMED|^check " "$OUT/out.txt" | sed "s#$OUT#<out>#g" | cut -c1-220 | head -12
+grep -E "^  harness=" "$OUT/out.txt" | cut -c1-200 | sort | uniq -c | head -6
 echo "exit=$RC"
+git -C /repo worktree remove --force "$WT"; rm -rf "$OUT"
